@@ -4,6 +4,7 @@ mod run;
 mod gen;
 mod oracle;
 mod tables;
+mod reenc;
 use std::io::{BufRead, Write};
 
 /// counting allocator: bytes requested and the largest single request since the last reset (C03: no entry point may
